@@ -113,6 +113,7 @@ class ResourcePool {
   Resource<T> acquire() {
     T* t;
     DISPENSO_TSAN_ANNOTATE_IGNORE_WRITES_BEGIN();
+    DISPENSO_VERIF_POINT("Acquire", this);
     pool_.wait_dequeue(t);
     DISPENSO_TSAN_ANNOTATE_IGNORE_WRITES_END();
     return Resource<T>(t, this);
@@ -127,6 +128,7 @@ class ResourcePool {
     for (size_t i = 0; i < size_; ++i) {
       T* t;
       DISPENSO_TSAN_ANNOTATE_IGNORE_WRITES_BEGIN();
+      DISPENSO_VERIF_POINT("DtorDequeue", this);
       pool_.wait_dequeue(t);
       DISPENSO_TSAN_ANNOTATE_IGNORE_WRITES_END();
       t->~T();
@@ -137,6 +139,7 @@ class ResourcePool {
  private:
   void recycle(T* t) {
     DISPENSO_TSAN_ANNOTATE_IGNORE_WRITES_BEGIN();
+    DISPENSO_VERIF_POINT("Recycle", this);
     pool_.enqueue(t);
     DISPENSO_TSAN_ANNOTATE_IGNORE_WRITES_END();
   }
